@@ -202,6 +202,27 @@ def check_cycexp(res, facts):
                 problems.append("the multiplication by the base is configuration dependent")
         if not any(t["f"].get("name") == "cyclotomic_square_in_place" for _, t in f.calls()):
             problems.append("no squaring between digits")
+        # the accumulator starts at one (x^0): locally, or through a parameter that every caller sets to one()
+        from rules.c07 import norm
+        sq = [t for _, t in f.calls() if t["f"].get("name") == "cyclotomic_square_in_place"]
+        if sq:
+            init = norm(DF.expr(f, sq[0]["args"][0], depth=30))
+            if init == 1:
+                pass
+            elif isinstance(init, tuple) and init[0] == "arg" and not init[2]:
+                k = init[1]
+                host = fns.get("cyclotomic_exp_in_place")
+                sites = [t for _, t in host.calls() if t["f"].get("name") == "exp_loop"] if host is not None else []
+                vals = [norm(DF.expr(host, t["args"][k - 1], depth=30)) for t in sites if len(t["args"]) >= k]
+                if not sites or any(v != 1 for v in vals):
+                    problems.append("the accumulator does not start at one on every call (call sites pass %s): for an exponent without set digits (zero) the result is not x^0 = 1" % [show(v)[:40] for v in vals])
+            else:
+                problems.append("the accumulator starts at %s instead of one" % show(init)[:60])
+        host = fns.get("cyclotomic_exp_in_place")
+        if host is not None:
+            drops = sorted({t["f"].get("name") for _, t in host.calls() if t["f"].get("name") in ("next", "skip", "take", "step_by", "nth") and not t.get("mac")})
+            if drops:
+                problems.append("cyclotomic_exp_in_place consumes digits itself (%s) before handing the stream to the loop" % drops)
         (rule.bad if problems else rule.ok)(key, "; ".join(problems) if problems else "square between digits; +1: res *= f; -1: res *= f^-1 under INVERSE_IS_FAST only", f.loc)
 
 
